@@ -38,6 +38,7 @@ type listQ interface {
 	priorc(x int) (string, bool)
 	pop() string
 	popany() (string, bool)
+	addany(x int, ts time.Duration) (string, bool) // the *Anyway add on the request list
 	close()
 }
 
@@ -62,6 +63,9 @@ func valName(v interface{}, err error, closed error) string {
 		}
 		return "err:" + err.Error()
 	}
+	if v == nil {
+		return "v:nil"
+	}
 	if i, ok := v.(int); ok {
 		return "v:" + strconv.Itoa(i)
 	}
@@ -70,9 +74,9 @@ func valName(v interface{}, err error, closed error) string {
 
 type qQ struct{ q *pq.Q }
 
-func (a qQ) add(x int) string { return errName(a.q.AddReq(x), pq.ErrClosed, pq.ErrReqQFull, nil) }
+func (a qQ) add(x int) string { return errName(a.q.AddReq(item(x)), pq.ErrClosed, pq.ErrReqQFull, nil) }
 func (a qQ) prior(x int) (string, bool) {
-	return errName(a.q.AddPriorReq(x), pq.ErrClosed, pq.ErrReqQFull, nil), true
+	return errName(a.q.AddPriorReq(item(x)), pq.ErrClosed, pq.ErrReqQFull, nil), true
 }
 func (a qQ) addc(int) (string, bool)   { return "", false }
 func (a qQ) priorc(int) (string, bool) { return "", false }
@@ -81,13 +85,18 @@ func (a qQ) popany() (string, bool) {
 	v, e := a.q.PopAnyway()
 	return valName(v, e, pq.ErrClosed), true
 }
+func (a qQ) addany(x int, ts time.Duration) (string, bool) {
+	return errName(a.q.AddReqAnyway(item(x), ts), pq.ErrClosed, pq.ErrReqQFull, nil), true
+}
 func (a qQ) close() { a.q.Close() }
 
 type asyncQ struct{ q *async.Q }
 
-func (a asyncQ) add(x int) string { return errName(a.q.Add(x), async.ErrClosed, async.ErrFull, nil) }
+func (a asyncQ) add(x int) string {
+	return errName(a.q.Add(item(x)), async.ErrClosed, async.ErrFull, nil)
+}
 func (a asyncQ) prior(x int) (string, bool) {
-	return errName(a.q.AddPrior(x), async.ErrClosed, async.ErrFull, nil), true
+	return errName(a.q.AddPrior(item(x)), async.ErrClosed, async.ErrFull, nil), true
 }
 func (a asyncQ) addc(int) (string, bool)   { return "", false }
 func (a asyncQ) priorc(int) (string, bool) { return "", false }
@@ -96,13 +105,18 @@ func (a asyncQ) popany() (string, bool) {
 	v, e := a.q.PopAnyway()
 	return valName(v, e, async.ErrClosed), true
 }
+func (a asyncQ) addany(x int, ts time.Duration) (string, bool) {
+	return errName(a.q.AddAnyway(item(x), ts), async.ErrClosed, async.ErrFull, nil), true
+}
 func (a asyncQ) close() { a.q.Close() }
 
 type muxQ struct{ q *mux.Q }
 
-func (a muxQ) add(x int) string { return errName(a.q.AddReq(x), mux.ErrClosed, mux.ErrQFull, nil) }
+func (a muxQ) add(x int) string {
+	return errName(a.q.AddReq(item(x)), mux.ErrClosed, mux.ErrQFull, nil)
+}
 func (a muxQ) prior(x int) (string, bool) {
-	return errName(a.q.AddPriorReq(x), mux.ErrClosed, mux.ErrQFull, nil), true
+	return errName(a.q.AddPriorReq(item(x)), mux.ErrClosed, mux.ErrQFull, nil), true
 }
 func (a muxQ) addc(int) (string, bool)   { return "", false }
 func (a muxQ) priorc(int) (string, bool) { return "", false }
@@ -111,26 +125,32 @@ func (a muxQ) popany() (string, bool) {
 	v, e := a.q.PopAnyway()
 	return valName(v, e, mux.ErrClosed), true
 }
+func (a muxQ) addany(x int, ts time.Duration) (string, bool) {
+	return errName(a.q.AddReqAnyway(item(x), ts), mux.ErrClosed, mux.ErrQFull, nil), true
+}
 func (a muxQ) close() { a.q.Close() }
 
 type mqQ struct{ q *mq.MQ }
 
 func (a mqQ) add(x int) string {
-	return errName(a.q.AddReq(x), mq.ErrClosed, mq.ErrReqQFull, mq.ErrCtrlQFull)
+	return errName(a.q.AddReq(item(x)), mq.ErrClosed, mq.ErrReqQFull, mq.ErrCtrlQFull)
 }
 func (a mqQ) prior(x int) (string, bool) {
-	return errName(a.q.AddPriorReq(x), mq.ErrClosed, mq.ErrReqQFull, mq.ErrCtrlQFull), true
+	return errName(a.q.AddPriorReq(item(x)), mq.ErrClosed, mq.ErrReqQFull, mq.ErrCtrlQFull), true
 }
 func (a mqQ) addc(x int) (string, bool) {
-	return errName(a.q.AddCtrl(x), mq.ErrClosed, mq.ErrReqQFull, mq.ErrCtrlQFull), true
+	return errName(a.q.AddCtrl(item(x)), mq.ErrClosed, mq.ErrReqQFull, mq.ErrCtrlQFull), true
 }
 func (a mqQ) priorc(x int) (string, bool) {
-	return errName(a.q.AddPriorCtrl(x), mq.ErrClosed, mq.ErrReqQFull, mq.ErrCtrlQFull), true
+	return errName(a.q.AddPriorCtrl(item(x)), mq.ErrClosed, mq.ErrReqQFull, mq.ErrCtrlQFull), true
 }
 func (a mqQ) pop() string { v, e := a.q.Pop(); return valName(v, e, mq.ErrClosed) }
 func (a mqQ) popany() (string, bool) {
 	v, e := a.q.PopAnyway()
 	return valName(v, e, mq.ErrClosed), true
+}
+func (a mqQ) addany(x int, ts time.Duration) (string, bool) {
+	return errName(a.q.AddReqAnyway(item(x), ts), mq.ErrClosed, mq.ErrReqQFull, mq.ErrCtrlQFull), true
 }
 func (a mqQ) close() { a.q.Close() }
 
@@ -148,7 +168,10 @@ func (a syncQ) pop() string {
 	return valName(v, nil, nil)
 }
 func (a syncQ) popany() (string, bool) { return "", false }
-func (a syncQ) close()                 { a.q.Close() }
+func (a syncQ) addany(x int, ts time.Duration) (string, bool) {
+	return "", false
+}
+func (a syncQ) close() { a.q.Close() }
 
 // wakeAllForCleanup releases consumers a defective Close left behind, AFTER all observations of the script were made
 // (only so that goroutines do not accumulate over thousands of scripts). It reaches the queue's unexported condition
@@ -176,21 +199,23 @@ func (e entry) GetPriority() int { return e.prio }
 // ---------------------------------------------------------------- running a script, with the monitors
 
 type runner struct {
-	prop    string
-	kind    string
-	lq      listQ
-	pq      *priq.PriQueue
-	s       *sched.S
-	tasks   []*sched.Task
-	seenRet map[*sched.Task]bool
-	waiter  map[*sched.Task]string // tasks blocked in WaitClose / WaitClear ("close" / "clear")
-	cleared bool
-	ctx     context.Context
-	cancel  context.CancelFunc
-	quit    chan struct{}
-	hits    []corr.Hit
-	seen    map[string]bool
-	dead    string
+	prop     string
+	kind     string
+	lq       listQ
+	pq       *priq.PriQueue
+	s        *sched.S
+	tasks    []*sched.Task
+	seenRet  map[*sched.Task]bool
+	spinItem map[*sched.Task]int    // tasks running an *Anyway add → the item
+	waiter   map[*sched.Task]string // tasks blocked in WaitClose / WaitClear ("close" / "clear")
+	cleared  bool
+	spinners int // *Anyway adds started by `addany` that have not returned yet
+	ctx      context.Context
+	cancel   context.CancelFunc
+	quit     chan struct{}
+	hits     []corr.Hit
+	seen     map[string]bool
+	dead     string
 	// what the monitors need, all taken from results of the real calls
 	closed   bool
 	accepted map[int]int // how often each item value was accepted by an add (scripts may repeat a value)
@@ -289,24 +314,56 @@ func (r *runner) quiesce(skip *sched.Task) (rets []string, parked int, ok bool) 
 			live = true
 		}
 	}
-	if live {
-		if err := c12sched.Settle(10 * time.Second); err != nil {
-			r.dead = "harness:" + strings.SplitN(err.Error(), "\n", 2)[0]
-			return nil, 0, false
+	// which calls have returned: read at a quiescent point; with retry loops pending (they act on their own timer) the
+	// flags are read twice around a second quiescence test and must agree, so that the cut is consistent
+	flags := func() []bool {
+		v := make([]bool, len(r.tasks))
+		for i, t := range r.tasks {
+			v[i], _ = t.Done()
+		}
+		return v
+	}
+	var done []bool
+	for round := 0; ; round++ {
+		if live {
+			if err := c12sched.Settle(10 * time.Second); err != nil {
+				r.dead = "harness:" + strings.SplitN(err.Error(), "\n", 2)[0]
+				return nil, 0, false
+			}
+		}
+		v := flags()
+		same := done != nil && len(done) == len(v)
+		for i := 0; same && i < len(v); i++ {
+			same = done[i] == v[i]
+		}
+		done = v
+		if same || r.spinners == 0 || round > 1000 {
+			break
 		}
 	}
-	for _, t := range r.tasks {
-		if r.seenRet[t] {
-			continue
-		}
-		if d, res := t.Done(); d {
+	// retry loops first: an item they got accepted may already have been handed to a consumer
+	for pass := 0; pass < 2; pass++ {
+		for i, t := range r.tasks {
+			_, isSpin := r.spinItem[t]
+			if r.seenRet[t] || isSpin != (pass == 0) {
+				continue
+			}
+			if !done[i] {
+				parked++
+				continue
+			}
+			_, res := t.Done()
 			r.seenRet[t] = true
+			if isSpin {
+				r.spinners--
+				if res == "ok" {
+					r.accepted[r.spinItem[t]]++
+				}
+			}
 			r.noteHanded(res)
 			if t != skip {
 				rets = append(rets, res)
 			}
-		} else {
-			parked++
 		}
 	}
 	sort.Strings(rets)
@@ -318,6 +375,9 @@ func (r *runner) noteHanded(res string) {
 		return
 	}
 	v, err := strconv.Atoi(res[2:])
+	if res == "v:nil" {
+		v, err = 0, nil
+	}
 	if err != nil {
 		return
 	}
@@ -346,6 +406,9 @@ func (r *runner) monitorQuiescent(op string, _ int) {
 	consumers, wclose, wclear := 0, 0, 0
 	for _, t := range r.tasks {
 		if d, _ := t.Done(); d {
+			continue
+		}
+		if _, isSpin := r.spinItem[t]; isSpin {
 			continue
 		}
 		switch r.waiter[t] {
@@ -476,6 +539,16 @@ func (r *runner) line(l string) string {
 			fns = append(fns, fn)
 		}
 		var outs []string
+		before := c12sched.Fingerprint()
+		doneBefore, poppers := 0, 0
+		for _, t := range r.tasks {
+			if d, _ := t.Done(); d {
+				doneBefore++
+			} else if t.Name == "pop" {
+				poppers++
+			}
+		}
+		wasClosed := r.closed
 		prev := runtime.GOMAXPROCS(1)
 		// one trip through the scheduler on the P we ended up on: sysmon's record of that P may be stale (it was idle
 		// while we ran elsewhere) and would otherwise let it preempt us at once, resuming a woken consumer mid-burst
@@ -483,8 +556,115 @@ func (r *runner) line(l string) string {
 		for _, fn := range fns {
 			outs = append(outs, fn())
 		}
+		// certificate (taken before anybody else can get the P): every goroutine that was parked before the burst is
+		// still where it was — parked, or made runnable without having executed an instruction — and nobody retries in
+		// an *Anyway loop. Then every consumer woken by the burst resumes after its last event (`held=1`).
+		doneAfter := 0
+		for _, t := range r.tasks {
+			if d, _ := t.Done(); d {
+				doneAfter++
+			}
+		}
+		held := r.spinners == 0 && doneAfter == doneBefore && c12sched.SameFingerprints(before, c12sched.Fingerprint())
 		runtime.GOMAXPROCS(prev)
-		return finish(strings.Join(outs, ";"))
+		rets, parked, ok := r.quiesce(nil)
+		if !ok {
+			return "harness-error"
+		}
+		r.monitorQuiescent(l, parked)
+		if held && !isSync && r.closed && !wasClosed && poppers > 0 {
+			// close semantics for a Pop that was blocked: it resumed after the Close of this burst, so it must fail even
+			// if items remain (PopAnyway consumers may take them)
+			items := 0
+			for _, x := range rets {
+				if strings.HasPrefix(x, "v:") {
+					items++
+				}
+			}
+			anyways := 0
+			for _, t := range r.tasks {
+				if t.Name == "popany" {
+					anyways++
+				}
+			}
+			if items > anyways {
+				r.hit("Pop", "blocked-pop-returns-item-after-close", fmt.Sprintf("after `%s` (no consumer ran before the Close returned): %d item(s) were handed out although at most %d PopAnyway caller(s) exist — a blocked Pop returned an item from a closed queue", l, items, anyways))
+			}
+		}
+		h := " held=0"
+		if held {
+			h = " held=1"
+		}
+		return strings.Join(outs, ";") + suffix(rets, parked) + h
+	case "addn":
+		// `addn n x0`: the adds x0 … x0+n-1 one after the other (no quiescence in between)
+		if len(f) != 3 {
+			return "bad-op"
+		}
+		n, ok1 := atoiStrict(f[1], false)
+		x0, ok2 := atoiStrict(f[2], false)
+		if !ok1 || !ok2 || n > 100000 || x0 <= 0 {
+			return "bad-op"
+		}
+		k := 0
+		for i := 0; i < n; i++ {
+			if res := r.lq.add(x0 + i); res == "ok" {
+				k++
+				if !(isSync && r.closed) {
+					r.accepted[x0+i]++
+				}
+			}
+		}
+		return finish("ok=" + strconv.Itoa(k))
+	case "drain":
+		// SyncQueue: TryPop by the script's own thread until the buffer is empty
+		if len(f) != 1 || !isSync {
+			return "bad-op"
+		}
+		q := r.lq.(syncQ).q
+		k := 0
+		for q.Len() > 0 {
+			v, ok := q.TryPop()
+			if !ok || v == nil {
+				r.hit("TryPop", "item-withheld", fmt.Sprintf("TryPop returned (%v,%v) with Len()=%d", v, ok, q.Len()))
+				break
+			}
+			r.noteHanded(valName(v, nil, nil))
+			k++
+		}
+		return finish("n:" + strconv.Itoa(k))
+	case "addany":
+		// a NEW producer in the *Anyway add (retry pause 2 ms); it returns or stays in its retry loop
+		if len(f) != 2 || isSync {
+			return "bad-op"
+		}
+		x, ok := parseItem(f[1], false)
+		if !ok {
+			return "bad-op"
+		}
+		var t *sched.Task
+		t = r.s.Go("addany", func() string {
+			res, _ := r.lq.addany(x, 2*time.Millisecond)
+			return res
+		})
+		r.tasks = append(r.tasks, t)
+		r.spinItem[t] = x
+		r.spinners++
+		rets, parked, ok := r.quiesce(t)
+		if !ok {
+			return "harness-error"
+		}
+		r.monitorQuiescent(l, parked)
+		return t.State() + suffix(rets, parked)
+	case "settle":
+		// give pending retry loops a few pauses, then wait for quiescence (the oracle allows both: retried or not yet)
+		if len(f) != 1 {
+			return "bad-op"
+		}
+		if r.spinners > 0 {
+			time.Sleep(8 * time.Millisecond)
+		}
+		return finish("ok")
 	case "pop", "popany":
 		if len(f) != 1 || (f[0] == "popany" && isSync) {
 			return "bad-op"
@@ -506,7 +686,7 @@ func (r *runner) line(l string) string {
 		if len(f) != 2 {
 			return "bad-op"
 		}
-		x, ok := atoiStrict(f[1], false)
+		x, ok := parseItem(f[1], isSync)
 		if !ok {
 			return "bad-op"
 		}
@@ -703,15 +883,18 @@ func (r *runner) priLine(f []string, l string) string {
 	return "bad-op"
 }
 
+func init() { c12sched.RetryFrames = []string{"AddReqAnyway", "AddAnyway", "AddCtrlAnyway"} }
+
 // RunCase executes one script. prop ("C12" / "C13") prefixes the monitor keys.
 func RunCase(prop string, c corr.Case) (res corr.Result) {
-	r := &runner{prop: prop, s: sched.New(), seen: map[string]bool{}, seenRet: map[*sched.Task]bool{}, waiter: map[*sched.Task]string{}, accepted: map[int]int{}, handed: map[int]int{},
+	r := &runner{prop: prop, s: sched.New(), seen: map[string]bool{}, seenRet: map[*sched.Task]bool{}, waiter: map[*sched.Task]string{}, spinItem: map[*sched.Task]int{}, accepted: map[int]int{}, handed: map[int]int{},
 		quit: make(chan struct{})}
 	r.ctx, r.cancel = context.WithCancel(context.Background())
 	reset := func() {
 		r.cleanup()
 		r.tasks, r.seenRet, r.accepted, r.handed = nil, map[*sched.Task]bool{}, map[int]int{}, map[int]int{}
 		r.waiter, r.cleared = map[*sched.Task]string{}, false
+		r.spinItem, r.spinners = map[*sched.Task]int{}, 0
 		r.ctx, r.cancel = context.WithCancel(context.Background())
 		r.closed, r.holders, r.dead, r.quit = false, 0, "", make(chan struct{})
 	}
